@@ -19,7 +19,11 @@ Inductive case :=
 | CDSeq (id : N) (init : Z * Z * Z) (ops : list dop) (obs : list (Z * Z * Z))
 | CVote (id : N) (present wellformed : bool) (r u : Z) (vs : list Z) (ok : bool)
 | CRetV (id : N) (fee r u : Z) (others : list Z) (value : Z) (ok : bool)
-| CVSeq (id : N) (fee : Z) (ops : list vop) (obs : list (Z * Z)).
+| CVSeq (id : N) (fee : Z) (ops : list vop) (obs : list (Z * Z))
+  (* block-driven history of one stake address through State.ProcessBlock: per
+     block the operations the block means for the address (its transaction, then
+     the votes that expire in this block) and (rights, used) observed after it *)
+| CVBlocks (id : N) (fee : Z) (blocks : list (list vop * (Z * Z))).
 
 Fixpoint dseq (a : acct) (ops : list dop) (obs : list (Z * Z * Z)) : bool :=
   match ops, obs with
@@ -35,6 +39,12 @@ Fixpoint vseq (fee : Z) (s : stake) (ops : list vop) (obs : list (Z * Z)) : bool
   | _, _ => false
   end.
 
+Fixpoint vblocks (fee : Z) (s : stake) (bs : list (list vop * (Z * Z))) : bool :=
+  match bs with
+  | [] => true
+  | (ops, t) :: r => let s' := vrun true fee s ops in stake_eqb s' t && vblocks fee s' r
+  end.
+
 Definition check (c : case) : option N :=
   match c with
   | CRet id one refs change outs sg ok =>
@@ -47,6 +57,7 @@ Definition check (c : case) : option N :=
   | CRetV id fee r u others value ok =>
       if Bool.eqb (retvotes_check fee (mk_stake (r, u)) others value) ok then None else Some id
   | CVSeq id fee ops obs => if vseq fee (mk_stake (0, 0)) ops obs then None else Some id
+  | CVBlocks id fee bs => if vblocks fee (mk_stake (0, 0)) bs then None else Some id
   end.
 
 Definition mismatches (cs : list case) : list N :=
